@@ -798,6 +798,25 @@ pub fn run(plan: &Plan, tape: dsim::Tape) -> RunOut {
                     }
                 })
             }),
+            Action::SignalAtStep { step, sig } => dsim::with(|w| {
+                w.at_step(step, move || {
+                    let p = ctx(|c| c.server_procs.last().copied());
+                    if let Some(p) = p {
+                        let h = dsim::with(|w| w.signal(p, sig));
+                        if let Some(h) = h {
+                            h();
+                        }
+                    }
+                })
+            }),
+            Action::CrashAtStep { step } => dsim::with(|w| {
+                w.at_step(step, move || {
+                    let p = ctx(|c| c.server_procs.last().copied());
+                    if let Some(p) = p {
+                        dsim::with(|w| w.terminate_proc(p, 137, "crash"));
+                    }
+                })
+            }),
             Action::WallStepMs(ms) => dsim::with(|w| w.at(at, move || dsim::with(|w| w.wall_step(ms as i128 * dsim::MS as i128)))),
             Action::WallSet { secs, nanos } => dsim::with(|w| w.at(at, move || dsim::with(|w| w.wall_set(secs as i128 * dsim::SEC as i128 + nanos as i128)))),
             Action::WallFreeze { secs, nanos } => dsim::with(|w| w.at(at, move || dsim::with(|w| w.wall_freeze(Some(secs as i128 * dsim::SEC as i128 + nanos as i128))))),
